@@ -11,8 +11,9 @@
 //!   * a source of well-formed lines compiles (exit 0, nothing reported, file exists) and the dump contains exactly its
 //!     records (last duplicate wins; one-character frequencies 0 unless --keep-word-freq), in both dump formats;
 //!   * compiling either dump again gives the same dump, and every key looks up the same phrases in the same order;
-//!   * a malformed line i is reported as line i+1; without --skip-invalid the exit status is non-zero and no output file
-//!     exists; with it the tool succeeds and the records of the other lines are all there;
+//!   * a malformed line i — also one that is not valid UTF-8 — is reported as line i+1; without --skip-invalid the exit
+//!     status is non-zero and no output file exists; with it the tool succeeds and the records of the other lines are all
+//!     there (no known class is left here: F27 and F45 are fixed, every unreported malformed line is `new`);
 //!   * no well-formed line is reported.
 use chewing::dictionary::{Dictionary, LookupStrategy, Trie};
 #[cfg(feature = "sqlite")]
@@ -554,6 +555,14 @@ fn corruptions(text: &str, r: &Rec, csv: bool, rng: &mut Rng) -> Vec<(&'static s
         v.push(("phrase-whitespace", format!("{}\t {} {}", r.phrase, r.freq, syl)));
         v.push(("phrase-whitespace", format!("\u{a0}{} {} {}", r.phrase, r.freq, syl)));
     }
+    // … with one more syllable, i.e. as many syllables as the field has characters, white space included: only the phrase is wrong
+    if csv {
+        v.push(("phrase-whitespace-padded", format!("{} ,{},{} ㄕˋ", r.phrase, r.freq, syl)));
+        v.push(("phrase-whitespace-padded", format!("\u{3000}{},{},ㄕˋ {}", r.phrase, r.freq, syl)));
+    } else {
+        v.push(("phrase-whitespace-padded", format!("{}\t {} {} ㄕˋ", r.phrase, r.freq, syl)));
+        v.push(("phrase-whitespace-padded", format!(",{} {} ㄕˋ {}", r.phrase, r.freq, syl)));
+    }
     v.push(("quote-in-phrase", format!("{}\"{}{}{}{}{}", r.phrase, r.phrase, d, r.freq, d, syl)));
     v.push(("wrong-delimiter", text.replace(d, if csv { ";" } else { "\t" })));
     v.push(("tone1", format!("{}{}{}{}{}ˉ", r.phrase, d, r.freq, d, r.syls[..r.syls.len() - 1].iter().map(|s| format!("{} ", s)).collect::<String>() + "ㄅㄚ")));
@@ -625,27 +634,11 @@ fn src_text(lines: &[(String, Verdict)], crlf: bool, final_nl: bool) -> String {
     s
 }
 
-/// known class (KNOWN_FINDINGS.txt) of a malformed line the tool did not report, or "new": every defect of
-/// the line must be one the unchanged parser is known not to look at under this configuration
-fn undetected_class(kinds: &[&'static str], phrase: &Option<String>, cfg: Cfg) -> &'static str {
-    let single = phrase.as_ref().map(|p| p.chars().count() == 1).unwrap_or(false);
-    let class_of = |k: &str| -> Option<&'static str> {
-        match k {
-            "no-syllables" => Some("no-syllables"),
-            "length-mismatch" => Some("length-mismatch"),
-            "empty-phrase" => Some("empty-phrase"),
-            // separators inside the phrase field: accepted only when they sit at its ends (otherwise the frequency is taken
-            // for a syllable and the line is rejected); the phrase is stored with them
-            "phrase-chars" => Some("phrase-whitespace"),
-            "no-freq" | "bad-freq" if single && !cfg.keep => Some("word-freq-unchecked"),
-            _ => None,
-        }
-    };
-    let cs: Vec<Option<&'static str>> = kinds.iter().map(|k| class_of(k)).collect();
-    if cs.is_empty() || cs.iter().any(|c| c.is_none()) {
-        return "new";
-    }
-    cs[0].unwrap()
+/// class of a malformed line the tool did not report: always "new" — the former known classes of F27 (`no-syllables`,
+/// `length-mismatch`, `empty-phrase`, `phrase-whitespace`, `word-freq-unchecked`) are fixed in `parse_line`, so a recurrence
+/// is a violation
+fn undetected_class(_kinds: &[&'static str], _phrase: &Option<String>, _cfg: Cfg) -> &'static str {
+    "new"
 }
 
 #[allow(clippy::too_many_arguments)]
@@ -821,10 +814,6 @@ fn check_source(
         };
         let class = if !tone1_keys.is_empty() && r2.exit == 0 && r2.reported.is_empty() && same_records {
             "F18-tone1"
-        } else if undetected.iter().any(|(_, k, _)| *k == "empty-phrase") {
-            "empty-phrase"
-        } else if undetected.iter().any(|(_, k, _)| *k == "phrase-chars") {
-            "phrase-whitespace"
         } else {
             "new"
         };
@@ -901,7 +890,8 @@ fn check_source(
 
 /// a source given as bytes: correspondence record (`runraw`, byte-level model) and the oracle for lines that are not
 /// valid UTF-8 — such a line is malformed, so it must be reported with its number, block the build without
-/// `--skip-invalid` and be skipped with it (finding F45 `invalid-utf8`: the tool stops with an I/O error instead)
+/// `--skip-invalid` and be skipped with it (F45 `invalid-utf8`, fixed: the tool used to stop with an I/O error instead;
+/// a recurrence is reported as `new`)
 fn check_raw(cli: &mut Cli, out: &mut Out, st: &mut Stats, cfg: Cfg, bytes: &[u8]) {
     let (r, io) = cli.run_bytes(cfg, bytes);
     st.runs += 1;
@@ -932,8 +922,7 @@ fn check_raw(cli: &mut Cli, out: &mut Out, st: &mut Stats, cfg: Cfg, bytes: &[u8
         return; // everything else about such a source is checked on the text level
     }
     *st.defects.entry("invalid-utf8.sources".into()).or_insert(0) += 1;
-    // exactly the known behaviour: the run stops with the I/O error, exit status 1, nothing reported, nothing built
-    let class = if io && r.exit == 1 && !r.exists && r.reported.is_empty() { "invalid-utf8" } else { "new" };
+    let class = "new";
     for i in &invalid {
         if !r.reported.contains(&(i + 1)) {
             out.oracle_fail("C20", class, &format!("line_{}_(not_valid_UTF-8)_is_not_reported_with_its_number {}", i + 1, id));
@@ -1050,9 +1039,13 @@ fn main() {
         (true, vec![]),
         (true, vec!["anything at all, even \"this\""]),
         (false, vec!["測 5", "甲乙 7 ㄘㄜˋ"]),
+        // the other former witnesses of F27 (fixed): unchecked one-character frequency, empty phrase, white space / comma in the
+        // phrase field (the last ones with as many syllables as the field has characters, so that nothing else is wrong)
+        (false, vec!["測 abc ㄘㄜˋ", "試", "\"\" 5 ㄘㄜˋ", "測試\t 5 ㄘㄜˋ ㄕˋ ㄕˋ", ",策 3 ㄘㄜˋ ㄘㄜˋ", "測試 5 # ㄘㄜˋ ㄕˋ"]),
+        (true, vec![header, "測試 ,5,ㄘㄜˋ ㄕˋ ㄕˋ", " 策,3,ㄘㄜˋ ㄘㄜˋ", ",5,ㄘㄜˋ", "測,abc,ㄘㄜˋ"]),
         (false, vec!["吧 3 ㄅㄚˉ", "爸 4 ㄅㄚˋ"]),
-        // a leaf mixing one-character and longer phrases (F27 length-mismatch): the one arm of the leaf comparator that
-        // differs between the two known versions of TrieBuilder::write (by UTF-8 length / one-character first)
+        // lines that would put one-character and longer phrases into one leaf: rejected since the fix of F27 `length-mismatch`
+        // (a mixed leaf can no longer be built through the tool; the comparator arm for it is C11's business)
         (false, vec!["𠀀 1 ㄘㄜˋ", "ab 7 ㄘㄜˋ", "測 2 ㄘㄜˋ", "abc 9 ㄘㄜˋ", "é 3 ㄘㄜˋ", "策略 9 ㄘㄜˋ"]),
         // F18 with a collision: the dump lists a pair twice, the recompiled dictionary merges the two
         (false, vec!["吧 1 ㄅㄚ", "吧 9 ㄅㄚˉ", "試吧 2 ㄕˋ ㄅㄚ", "試吧 3 ㄕˋ ㄅㄚˉ", "爸吧 7 ㄅㄚˋ ㄅㄚˉ", "爸吧 6 ㄅㄚˋ ㄅㄚ"]),
